@@ -416,6 +416,8 @@ pub fn c16_symlink_cases(rng: &mut Rng, tier: &str, out: &mut Out) {
         // through a link to a FILE used as a directory, through the real directory out/deep, into an
         // existing directory behind a link, absolute spelling of a routed name
         "flink/x", "deep/x", "link/keepdir/k", "/flink", "deep/l2/../../flink", "deep",
+        // a dangling link (target outside the output directory, not existing) and a way through it
+        "dlink", "dlink/x", "./dlink",
     ];
     let n = if tier == "thorough" { 120 } else { 30 };
     for k in 0..n {
@@ -444,6 +446,7 @@ pub fn c16_symlink_cases(rng: &mut Rng, tier: &str, out: &mut Out) {
         std::os::unix::fs::symlink("../sibling", sb.join("out/link")).unwrap();
         std::os::unix::fs::symlink("../../sibling/keepdir", sb.join("out/deep/l2")).unwrap();
         std::os::unix::fs::symlink("../outside.txt", sb.join("out/flink")).unwrap();
+        std::os::unix::fs::symlink("../nowhere.txt", sb.join("out/dlink")).unwrap();
         fs::write(sb.join("a.mla"), &archive).unwrap();
         let before = snapshot(&sb);
         let form = (k % 3) as u64;
